@@ -39,6 +39,12 @@ class OutcomeScript:
         self.k = 0
 
     def next(self, site, p=None):
+        if p is not None and min(p[0], p[1]) < 1e-9:
+            # a deterministic measurement in a backend that consults the RNG anyway: only the legal value may be
+            # returned and no scripted bit is consumed (script position k counts genuinely random measurements)
+            v = 0 if p[0] >= p[1] else 1
+            self.taken.append((site, v, [float(p[0]), float(p[1])]))
+            return v
         if self.k < len(self.bits):
             v = int(self.bits[self.k])
         elif isinstance(self.fallback, _pyrandom.Random):
@@ -46,10 +52,6 @@ class OutcomeScript:
         else:
             v = int(self.fallback)
         self.k += 1
-        if p is not None:
-            # never return an outcome of probability ~0 (illegal for the code under test)
-            if p[v] < 1e-12:
-                v = 1 - v
         self.taken.append((site, v, None if p is None else [float(p[0]), float(p[1])]))
         return v
 
